@@ -113,3 +113,67 @@ Proof.
   split; [exact proper_id|]. unfold rot_of. rewrite rot_zyx_entries. cbn [v0 v1 v2 m20].
   rewrite sin_0, Ropp_0, Rabs_R0. lra.
 Qed.
+
+(* ================= SYNTACTIC SOURCE TIE (translate/eigensym.py, translate/tr_C11_eigensym.py -> gen/SrcEigenC11.v) =================
+   The reductions of Matrix.hpp (templates instantiated at double) and the value-returning 3D -> 2D conversions of
+   src/geometry/Pose3D.cpp / Twist3D.cpp (default constructors of the 2D types and the two-argument overloads inlined) are
+   regenerated from the clang AST on every run by the symbolic Eigen evaluator; the generated terms equal the models above. *)
+From Romea Require Import SrcTieC11.
+From Romea.gen Require Import SrcEigenC11.
+From Coq Require Import List String.
+Import ListNotations.
+
+Theorem C11_source_tie_reductions : forall (c : mat R) (m : mat3 R),
+  (forall i j, (i < 3)%nat -> (j < 3)%nat -> mget3 (src_toSe2Covariance ROps c) i j = toSe2Covariance c i j) /\
+  (forall i j, (i < 6)%nat -> (j < 6)%nat -> src_toSe3Covariance ROps m i j = toSe3Covariance ROps (mget3 m) i j).
+Proof. exact source_tie_reductions. Qed.
+Print Assumptions C11_source_tie_reductions.
+
+Theorem C11_source_tie_toPose2D : forall p : pose3 (T:=R),
+  src_toPose2D_inputs = ["arg0.covariance"; "arg0.orientation"; "arg0.position"]%string /\
+  src_toPose2D_outputs = ["position"; "yaw"; "covariance"]%string /\
+  let q := toPose2D p in
+  src_toPose2D_position ROps (p3_cov p) (p3_ori p) (p3_pos p) = (p2_x q, p2_y q) /\
+  src_toPose2D_yaw ROps (p3_cov p) (p3_ori p) (p3_pos p) = p2_yaw q /\
+  forall i j, (i < 3)%nat -> (j < 3)%nat -> mget3 (src_toPose2D_covariance ROps (p3_cov p) (p3_ori p) (p3_pos p)) i j = p2_cov q i j.
+Proof. exact tie_toPose2D. Qed.
+
+Theorem C11_source_tie_toPosition3D : forall p : pose3 (T:=R),
+  src_toPosition3D_inputs = ["arg0.covariance"; "arg0.position"]%string /\
+  src_toPosition3D_outputs = ["position"; "covariance"]%string /\
+  let q := toPosition3D p in
+  (v0 (src_toPosition3D_position ROps (p3_cov p) (p3_pos p)) = v0 (q3_pos q) /\
+   v1 (src_toPosition3D_position ROps (p3_cov p) (p3_pos p)) = v1 (q3_pos q) /\
+   v2 (src_toPosition3D_position ROps (p3_cov p) (p3_pos p)) = v2 (q3_pos q)) /\
+  forall i j, (i < 3)%nat -> (j < 3)%nat -> mget3 (src_toPosition3D_covariance ROps (p3_cov p) (p3_pos p)) i j = q3_cov q i j.
+Proof. exact tie_toPosition3D. Qed.
+
+Theorem C11_source_tie_toTwist2D : forall w : twist3 (T:=R),
+  src_toTwist2D_inputs = ["arg0.angularSpeeds"; "arg0.covariance"; "arg0.linearSpeeds"]%string /\
+  src_toTwist2D_outputs = ["linearSpeeds"; "angularSpeed"; "covariance"]%string /\
+  let q := toTwist2D w in
+  src_toTwist2D_linearSpeeds ROps (t3_ang w) (t3_cov w) (t3_lin w) = (t2_vx q, t2_vy q) /\
+  src_toTwist2D_angularSpeed ROps (t3_ang w) (t3_cov w) (t3_lin w) = t2_w q /\
+  forall i j, (i < 3)%nat -> (j < 3)%nat -> mget3 (src_toTwist2D_covariance ROps (t3_ang w) (t3_cov w) (t3_lin w)) i j = t2_cov q i j.
+Proof. exact tie_toTwist2D. Qed.
+Print Assumptions C11_source_tie_toTwist2D.
+
+Theorem C11_source_tie_toPoseAndTwist2D : forall (p : pose3 (T:=R)) (w : twist3 (T:=R)),
+  src_toPoseAndTwist2D_inputs = ["arg0.pose.covariance"; "arg0.pose.orientation"; "arg0.pose.position";
+                                 "arg0.twist.angularSpeeds"; "arg0.twist.covariance"; "arg0.twist.linearSpeeds"]%string /\
+  src_toPoseAndTwist2D_outputs = ["pose_position"; "pose_yaw"; "pose_covariance";
+                                  "twist_linearSpeeds"; "twist_angularSpeed"; "twist_covariance"]%string /\
+  src_toPoseAndTwist2D ROps (p3_cov p) (p3_ori p) (p3_pos p) (t3_ang w) (t3_cov w) (t3_lin w) =
+  (src_toPose2D_position ROps (p3_cov p) (p3_ori p) (p3_pos p), src_toPose2D_yaw ROps (p3_cov p) (p3_ori p) (p3_pos p),
+   src_toPose2D_covariance ROps (p3_cov p) (p3_ori p) (p3_pos p),
+   src_toTwist2D_linearSpeeds ROps (t3_ang w) (t3_cov w) (t3_lin w), src_toTwist2D_angularSpeed ROps (t3_ang w) (t3_cov w) (t3_lin w),
+   src_toTwist2D_covariance ROps (t3_ang w) (t3_cov w) (t3_lin w)) /\
+  let q := toPoseAndTwist2D (p, w) in
+  src_toPoseAndTwist2D_pose_position ROps (p3_cov p) (p3_ori p) (p3_pos p) (t3_ang w) (t3_cov w) (t3_lin w) = (p2_x (fst q), p2_y (fst q)) /\
+  src_toPoseAndTwist2D_pose_yaw ROps (p3_cov p) (p3_ori p) (p3_pos p) (t3_ang w) (t3_cov w) (t3_lin w) = p2_yaw (fst q) /\
+  src_toPoseAndTwist2D_twist_linearSpeeds ROps (p3_cov p) (p3_ori p) (p3_pos p) (t3_ang w) (t3_cov w) (t3_lin w) = (t2_vx (snd q), t2_vy (snd q)) /\
+  src_toPoseAndTwist2D_twist_angularSpeed ROps (p3_cov p) (p3_ori p) (p3_pos p) (t3_ang w) (t3_cov w) (t3_lin w) = t2_w (snd q) /\
+  forall i j, (i < 3)%nat -> (j < 3)%nat ->
+    mget3 (src_toPoseAndTwist2D_pose_covariance ROps (p3_cov p) (p3_ori p) (p3_pos p) (t3_ang w) (t3_cov w) (t3_lin w)) i j = p2_cov (fst q) i j /\
+    mget3 (src_toPoseAndTwist2D_twist_covariance ROps (p3_cov p) (p3_ori p) (p3_pos p) (t3_ang w) (t3_cov w) (t3_lin w)) i j = t2_cov (snd q) i j.
+Proof. exact tie_toPoseAndTwist2D. Qed.
